@@ -112,16 +112,32 @@ Extra ==
     ignfaultdeep |-> [entry |-> "main", fl |-> "t3",
                   tp |-> ("main" :> <<T(<<97>>), Include(LS(NT.t1), Lit(Null), FALSE, FALSE, TRUE, FALSE), T(<<98>>)>>)
                          @@ ("t1" :> <<T(<<99>>), Include(LS(NT.t3), Lit(Null), FALSE, FALSE, TRUE, FALSE)>>) @@ ("t3" :> <<T(<<100>>)>>)],
+    \* what the including template binds hides an engine global of the same name, in the included template too
+    globalinc |-> [entry |-> "main", fl |-> "", globals |-> ("g" :> VS(<<71>>)) @@ ("a" :> VS(<<90>>)),
+                  tp |-> ("main" :> <<Set("g", LS(<<76>>)), T(<<91>>), PrintS(Var("g")), PrintS(Var("a")), T(<<93>>), Inc(LS(NT.t1)),
+                                      For1("g", Arr(<<LI(1), LI(2)>>), <<Inc(LS(NT.t1))>>),
+                                      Include(LS(NT.t1), Hash(<<LS(NT.g)>>, <<LI(9)>>), TRUE, FALSE, FALSE, FALSE), Include(LS(NT.t1), Lit(Null), FALSE, TRUE, FALSE, FALSE)>>)
+                         @@ ("t1" :> <<T(<<60>>), PrintS(Var("g")), PrintS(Var("a")), T(<<62>>), Inc(LS(NT.t3))>>) @@ ("t3" :> <<T(<<40>>), PrintS(Var("g")), T(<<41>>)>>)],
+    \* a variable that holds null is defined, in the included template as in the including one
+    nulldef |-> [entry |-> "main", fl |-> "",
+                  tp |-> ("main" :> <<Set("x", Lit(Null)), PrintS(Cond(Test(Var("x"), "defined", <<>>, FALSE), LS(<<100>>), LS(<<117>>))), Inc(LS(NT.t1)),
+                                      Include(LS(NT.t1), Hash(<<LS(NT.y)>>, <<Lit(Null)>>), TRUE, TRUE, FALSE, FALSE)>>)
+                         @@ ("t1" :> <<T(<<60>>), PrintS(Cond(Test(Var("x"), "defined", <<>>, FALSE), LS(<<100>>), LS(<<117>>))),
+                                       PrintS(Cond(Test(Var("y"), "defined", <<>>, FALSE), LS(<<100>>), LS(<<117>>))), T(<<62>>), Inc(LS(NT.t3))>>)
+                         @@ ("t3" :> <<PrintS(Cond(Test(Var("x"), "defined", <<>>, TRUE), LS(<<117>>), LS(<<100>>)))>>)],
     ignmissing |-> [entry |-> "main", fl |-> "",
                   tp |-> ("main" :> <<T(<<97>>), Include(LS(NT.nx), Lit(Null), FALSE, FALSE, TRUE, FALSE), T(<<98>>)>>)] ]
 LoaderLayouts == {"direct", "only", "front", "back", "chain"}
 ExtraCases == {[extra |-> n, ly |-> ly] : n \in DOMAIN Extra, ly \in LoaderLayouts}
 ExtraOK(c) == (Extra[c.extra].fl # "" => c.ly # "direct")
-ExtraRef(c) == Render(MkWF(Extra[c.extra].tp, {}, {}, NoFault, Extra[c.extra].fl), Extra[c.extra].entry, ("a" :> VI(1)))
+ExtraGlobals(c) == IF "globals" \in DOMAIN Extra[c.extra] THEN Extra[c.extra].globals ELSE EmptyFn
+\* (engine globals are the outermost scope: the context is in front of them)
+ExtraCtx(c) == IF "globals" \in DOMAIN Extra[c.extra] THEN EmptyFn ELSE ("a" :> VI(1))
+ExtraRef(c) == Render(WithGlobals(MkWF(Extra[c.extra].tp, {}, {}, NoFault, Extra[c.extra].fl), ExtraGlobals(c)), Extra[c.extra].entry, ExtraCtx(c))
 CaseOfExtra(c) ==
     LET r == ExtraRef(c) IN
-    [prop |-> "C11", key |-> ToJson(c), tags |-> {"extra:" \o c.extra, "loaders:" \o c.ly}, entry |-> Extra[c.extra].entry, ctx |-> ("a" :> VI(1)),
-     cfg |-> [loader |-> c.ly # "direct", faultload |-> Extra[c.extra].fl, frontloader |-> c.ly = "front", backloader |-> c.ly = "back",
+    [prop |-> "C11", key |-> ToJson(c), tags |-> {"extra:" \o c.extra, "loaders:" \o c.ly}, entry |-> Extra[c.extra].entry, ctx |-> ExtraCtx(c),
+     cfg |-> [globals |-> ExtraGlobals(c), loader |-> c.ly # "direct", faultload |-> Extra[c.extra].fl, frontloader |-> c.ly = "front", backloader |-> c.ly = "back",
               chainloader |-> c.ly = "chain"],
      runs |-> <<[label |-> c.extra, tp |-> Sources(Extra[c.extra].tp, LMin), xcalls |-> [id \in {} |-> 0]]>>,
      expect |-> [ok |-> r.ok, out |-> r.out, err |-> r.err, calls |-> [id \in {} |-> 0]]]
